@@ -192,6 +192,21 @@ def cases(rng, tier):
             if first_last(ver, v1, p1)[0] > first_last(ver, v2, p2)[1]:
                 v1, p1, v2, p2 = v2, p2, v1, p1
             yield ("c05_iprange_to_cidrs", [[ver, v1, p1], [ver, v2, p2]], "range_nets")
+    # start / end given as networks inside a small arena: nested, equal, adjacent and overlapping-by-nesting pairs
+    # happen constantly (start inside end, end inside start, common first or last address), host bits included
+    for ar in small:
+        ver, base, ap = ar
+        w = gens.W[ver]
+        span = 1 << (w - ap)
+        for _ in range(150 if quick else 4000):
+            p1, p2 = rng.randint(ap, w), rng.randint(ap, w)
+            v1, v2 = base + rng.randrange(span), base + rng.randrange(span)
+            if rng.random() < 0.4:      # force overlap: v2 inside the block of v1
+                h = 1 << (w - p1)
+                v2 = (v1 - v1 % h) + rng.randrange(h)
+            if first_last(ver, v1, p1)[0] > first_last(ver, v2, p2)[1]:
+                v1, p1, v2, p2 = v2, p2, v1, p1
+            yield ("c05_iprange_to_cidrs", [[ver, v1, p1], [ver, v2, p2]], "range_nets_arena")
     yield ("c05_iprange_to_cidrs", [[4, 1, 32], [6, 5, 128]], "range_mixed")
     # merges
     nm = 2500 if quick else 60000
